@@ -78,5 +78,5 @@ def function_info(con):
     mi = source.module(con.module)
     fn = mi.find(con.qual)
     a, b, sha = mi.segment(fn)
-    return {"function": con.name, "file": "src/" + con.module, "lines": [a, b], "sha256": sha,
+    return {"function": con.name, "contract_key": con.key, "file": "src/" + con.module, "lines": [a, b], "sha256": sha,
             "cases": [c.name for c in con.cases]}
